@@ -476,7 +476,107 @@ func runVF20(p *Prog, r *RuleRun) {
 				}
 			}
 		}
-		if counterArg == nil {
+		// ... or the transaction accumulates into a variable of its parent, which adds it to the metric once the
+		// transaction has been committed
+		var accum []ssa.Value
+		if counterArg == nil && fn.Parent() != nil {
+			par := fn.Parent()
+			var cell *ssa.Alloc
+			for _, b := range par.Blocks {
+				for _, ins := range b.Instrs {
+					if ci, ok := ins.(ssa.CallInstruction); ok && eventName(ci) == "metrics.Collector.IncrementCounter" {
+						if s, ok := constStringOf(ci.Common().Args[0]); ok && strings.HasSuffix(s, "_truncations") {
+							if u, ok := ci.Common().Args[1].(*ssa.UnOp); ok && u.Op == token.MUL {
+								if al, ok := u.X.(*ssa.Alloc); ok {
+									cell, metric = al, s
+								}
+							}
+						}
+					}
+				}
+			}
+			if cell != nil {
+				for _, b := range par.Blocks {
+					for _, ins := range b.Instrs {
+						mc, ok := ins.(*ssa.MakeClosure)
+						if !ok || mc.Fn != ssa.Value(fn) {
+							continue
+						}
+						for i, bv := range mc.Bindings {
+							if bv != ssa.Value(cell) || i >= len(fn.FreeVars) {
+								continue
+							}
+							fv := fn.FreeVars[i]
+							for _, fb := range fn.Blocks {
+								for _, fi := range fb.Instrs {
+									if st, ok := fi.(*ssa.Store); ok && st.Addr == ssa.Value(fv) {
+										accum = append(accum, st.Val)
+									}
+								}
+							}
+						}
+					}
+				}
+			}
+		}
+		// ... or the increment sits in a closure the transaction creates (a post-commit step) and reads a
+		// local of the transaction body
+		if counterArg == nil && len(accum) == 0 {
+			var scan func(af *ssa.Function, depth int)
+			scan = func(af *ssa.Function, depth int) {
+				for _, b := range af.Blocks {
+					for _, ins := range b.Instrs {
+						ci, ok := ins.(ssa.CallInstruction)
+						if !ok || eventName(ci) != "metrics.Collector.IncrementCounter" {
+							continue
+						}
+						s, ok := constStringOf(ci.Common().Args[0])
+						if !ok || !strings.HasSuffix(s, "_truncations") {
+							continue
+						}
+						u, ok := ci.Common().Args[1].(*ssa.UnOp)
+						if !ok || u.Op != token.MUL {
+							continue
+						}
+						fv, ok := u.X.(*ssa.FreeVar)
+						if !ok {
+							continue
+						}
+						// the binding of that captured variable where fn creates the closure
+						for _, fb := range fn.Blocks {
+							for _, fi := range fb.Instrs {
+								mc, ok := fi.(*ssa.MakeClosure)
+								if !ok || mc.Fn != ssa.Value(af) {
+									continue
+								}
+								for i, q := range af.FreeVars {
+									if q != fv || i >= len(mc.Bindings) {
+										continue
+									}
+									if cell, ok := mc.Bindings[i].(*ssa.Alloc); ok {
+										metric = s
+										for _, ref := range *cell.Referrers() {
+											if st, ok := ref.(*ssa.Store); ok && st.Addr == ssa.Value(cell) {
+												accum = append(accum, st.Val)
+											}
+										}
+									}
+								}
+							}
+						}
+					}
+				}
+				if depth < 2 {
+					for _, g := range af.AnonFuncs {
+						scan(g, depth+1)
+					}
+				}
+			}
+			for _, af := range fn.AnonFuncs {
+				scan(af, 0)
+			}
+		}
+		if counterArg == nil && len(accum) == 0 {
 			continue
 		}
 		// SUB terms feeding the counter
@@ -505,6 +605,9 @@ func runVF20(p *Prog, r *RuleRun) {
 			}
 		}
 		walk(counterArg)
+		for _, a := range accum {
+			walk(a)
+		}
 		// bound updates in this transaction
 		for _, b := range fn.Blocks {
 			for _, ins := range b.Instrs {
